@@ -299,9 +299,12 @@ class Composition(Loggable):
                     chain[comp] = (local_time - dep.time, delayed)
                     return self._update_recursive(c, chain)
             else:
+                chain[comp] = (None, delayed)
                 updated = self._update_recursive(c, chain, local_time)
                 if updated is not None:
                     return updated
+                # nothing to update upstream of the pull-based component
+                del chain[c]
 
         if isinstance(comp, ITimeComponent):
             if comp.status != ComponentStatus.FINISHED:
